@@ -220,6 +220,7 @@ func (p *BaseProcess) CloseOutPorts() {
 	for _, p := range p.OutPorts() {
 		p.Close()
 	}
+	verifPoint("proc.ports_closed", p.name, 0)
 }
 
 // CloseOutParamPorts closes all parameter out-ports
